@@ -1,6 +1,21 @@
 """Per-property configuration of tools/check.py."""
 
 PROPS = {
+    "C03": {
+        "modules": ["BioSeq.Props.C03"],
+        "rule": "slicing op lines: 7 codecs (widths 1,2,4,5,6,8) x parent lengths around 1-3 words x every start position reaching every bit offset "
+                "(0..64/gcd(w,64)) x ends {a,a+1,a+2,mid,n-1,n} x all 7 Index forms, nth/get at first/mid/last/len/len+1 through offset slices, "
+                "out-of-bounds and reversed bounds for every form, random nested re-slicing depth 1..3, indices whose bit offset overflows usize; "
+                "non-trivial = carries a non-empty text; distinct = distinct line",
+    },
+    "C01": {
+        "modules": ["BioSeq.Props.C01"],
+        "witness": "Witness/WF.lean",
+        "witness_modules": ["BioSeq.Checks.WF"],
+        "rule": "parse/display op lines: 7 codecs x 9 entry points x lengths {0..3} + word-boundary lengths (64j/w +-2) x valid texts, "
+                "texts with one or two refused bytes (start/end/random; lower case, digits, whitespace, neighbours of letters, bytes >= 0x80, "
+                "multi-byte UTF-8), all 256 single bytes, long random texts; both build profiles; non-trivial = carries a non-empty text; distinct = distinct line",
+    },
     "C05": {
         "modules": ["BioSeq.Props.C05"],
         "witness": "Witness/C05.lean",
